@@ -156,6 +156,11 @@ func setup(c Case) (*world, error) {
 		if c.Op == "pull-new" {
 			tp.Refs = []syncx.Ref{{Name: "heads/main", L: -1, R: 2, R2: 2}, {Name: "heads/dev", L: 0, R: -1, R2: -1}}
 		}
+		// the remote also has a tag on one of the new commits (two thirds of the cases): fetch
+		// follows tags whose commits it brings, and a re-run after a crash has to end with the tag too
+		if t := c.Edit % 3; t > 0 {
+			tp.Refs = append(tp.Refs, syncx.Ref{Name: "tags/v1", L: -1, R: t, R2: t})
+		}
 		sw, err := syncx.Build(tp)
 		if err != nil {
 			return nil, err
